@@ -1,3 +1,10 @@
+\* Reference configuration (quick tier, repaired design).  checks/c11.py generates its configurations per run:
+\*   quick    MaxD = 2  Cnts = {0, 2}  Rich = FALSE  Focus = TRUE   once with Fixed = all six names, once with Fixed = {}
+\*            (Fixed = {}: INVARIANTS TransparentUnlessDev Private Balanced PosAgree TagsOK)
+\*   thorough MaxD = 3 (Fixed = all, 87 k programs) / MaxD = 2, Rich = TRUE (Fixed = {}, 16 k programs)
+\* MaxD   nesting depth of constructs          Cnts   repetition counts / number of IRP arguments / IRPC characters
+\* NPre/NPost  statements before / after the nested construct in a body     Rich   IRPN, GLOBALSYMBOLS, keyword / excess
+\* arguments, expression atoms            Focus  add the focused families (MacroProc_MC!Small)
 CONSTANTS Fixed = {"EmptyBodyPop", "IrpcEmptyOnce", "TokenStraddle", "ShiftExcess", "IrpPosNext", "IrpDoubleCleanup"}
           HasAttrs = FALSE MaxNum = 99
           MaxD = 2 Cnts = {0, 2} NPre = 1 NPost = 1 Rich = FALSE Focus = TRUE
